@@ -218,7 +218,7 @@ class TranslateNode(Node, TranslatableTag):
         yield from (arg.value for arg in self.args.values())
 
     def messages(self) -> Iterable[MessageText]:  # noqa: D102
-        if not self.singular_block.block.nodes:
+        if not self.singular_block.block.nodes and not self.plural_block:
             return ()
 
         message_context_arg = self.args.get(self.message_context_var)
